@@ -6,14 +6,15 @@
 
      format_string_canon    : format_string v = canon_string v                       (every byte string v)
      dec/hex/bin numerals   : parse_uint reads them back; range errors exactly from 2^64
-     parse_number_dec/hex/bin, explain of CNat / CNeg / CHex / CBin / CFlt / CStr    (the integer boundaries)
+     parse_number_dec/rad/hex/bin, explain of CNat / CNeg / CHex / CBin / CRad / CFlt / CStr  (the integer boundaries)
      format_float_canon     : format.go's FormatFloat on (digits, exponent) = canon_float, for every digit
                               string and every decimal exponent in [-324, 308]
      parse_toks             : the token parser returns the expected AST on the tokens of every shaped tree
      literal_tokens_canon   : wfb t -> literal_of_tokens (toks t) = LOk (OLit (canon t))     (any nesting depth)
      nested_negation_canon  : -n inside an array / a tuple renders as at the top level, for every n
-     bin_big_refuted, float_range_refuted : the two remaining deviations of the code from the property text,
-                              by computation on the model. *)
+     parse_uint_rad / big_set_string0_rad : strconv.ParseUint(s, 0, 64) and big.Int.SetString(s, 0) read the value of
+                              every well-formed 0x / 0b / 0o spelling (either letter case, leading zeros, '_' separators)
+     float_range_refuted    : the remaining deviation of the code from the property text, by computation on the model. *)
 From Coq Require Import List NArith ZArith Bool Arith Lia ZifyN ZifyNat ZifyBool.
 From DC Require Import Base.Utf8 Base.Item Gen.TokenTable Expr.ExprTree Lexer.LexerStringsSpec
   Expr.LiteralModel Expr.LiteralSpec.
@@ -200,7 +201,7 @@ Proof.
 Qed.
 
 Lemma hexdigit_dig : forall k, k < 16 -> dig (hexdigit k) = k /\ digit_in 16 (hexdigit k) /\
-  hex_digit_val (hexdigit k) = Some k.
+  rdigit RHex (hexdigit k) = Some (dig (hexdigit k)).
 Proof.
   intros k Hk.
   assert (Hc : k = 0 \/ k = 1 \/ k = 2 \/ k = 3 \/ k = 4 \/ k = 5 \/ k = 6 \/ k = 7 \/ k = 8 \/ k = 9 \/
@@ -208,13 +209,6 @@ Proof.
   destruct Hc as [->|[->|[->|[->|[->|[->|[->|[->|[->|[->|[->|[->|[->|[->|[->| ->]]]]]]]]]]]]]]];
     (split; [reflexivity|split; [|reflexivity]]);
     unfold digit_in; (split; [first [left; reflexivity|right; reflexivity]|split; [vm_compute; reflexivity|discriminate]]).
-Qed.
-
-Lemma hex_val_bval : forall s acc, Forall (fun c => hex_digit_val c = Some (dig c)) s ->
-  hex_val s acc = Some (bval 16 s acc).
-Proof.
-  induction s as [|c s IH]; intros acc H; [reflexivity|].
-  inversion H as [|? ? Hc Hs]; subst. cbn [hex_val bval fold_left]. rewrite Hc. apply IH. exact Hs.
 Qed.
 
 Lemma hex_val_n : forall n, bval 16 (hex n) 0 = n.
@@ -227,13 +221,6 @@ Lemma hex_digits_in : forall n, digits_in 16 (hex n).
 Proof.
   intros n. unfold hex. rewrite hex_aux_gen. apply gen_aux_digits; [lia| |constructor].
   intros k Hk. apply hexdigit_dig. exact Hk.
-Qed.
-
-Lemma hex_hex_val : forall n, hex_val (hex n) 0 = Some n.
-Proof.
-  intros n. rewrite hex_val_bval; [rewrite hex_val_n; reflexivity|].
-  unfold hex. rewrite hex_aux_gen. apply gen_aux_digits; [lia| |constructor].
-  intros k Hk. destruct (hexdigit_dig k Hk) as (H1 & _ & H3). rewrite H1. exact H3.
 Qed.
 
 Lemma hex_nonempty : forall n, hex n <> [].
@@ -408,6 +395,288 @@ Proof.
   intros P s a c Hs Hc. destruct s as [|x [|y s]]; cbn [has_prefix]; [reflexivity|apply andb_false_r|].
   cbn [forallb] in Hs. apply andb_prop in Hs. destruct Hs as [_ Hs]. apply andb_prop in Hs. destruct Hs as [Hy _].
   destruct (c =? y) eqn:Q; [apply N.eqb_eq in Q; subst; congruence|]. rewrite andb_false_r. reflexivity.
+Qed.
+
+(* ---- prefixed spellings with separators (LiteralSpec.rad_ok): strconv and math/big read the same value ---- *)
+
+(* the digit test of pu_loop *)
+Definition pu_digit (c : N) : option N :=
+  if in_range 48 57 c then Some (c - 48)
+  else if in_range 97 122 (lower c) then Some (lower c - 97 + 10)
+  else None.
+
+Definition is_hexr (r : radix) : bool := match r with RHex => true | _ => false end.
+Definition opt_is (o : option N) (d : N) : bool := match o with Some x => x =? d | None => false end.
+
+(* what strconv, math/big, parseNumber's float tests and the lexer see in a digit character of the radix *)
+Definition rdigit_check (r : radix) (c : N) : bool :=
+  match rdigit r c with
+  | Some d =>
+      negb (c =? 95) && opt_is (pu_digit c) d && (d <? radix_base r) && (big_digit c =? d) &&
+      (in_range 48 57 c || (is_hexr r && in_range 97 102 (lower c))) &&
+      negb ((c =? 112) || (c =? 80) || (c =? 46))
+  | None => true
+  end.
+
+Lemma rdigit_sweep :
+  forallb (fun c => rdigit_check RHex c && rdigit_check RBin c && rdigit_check ROct c) (map N.of_nat (seq 0 128)) = true.
+Proof. vm_compute. reflexivity. Qed.
+
+Lemma rdigit_lt : forall r c d, rdigit r c = Some d -> c < 128.
+Proof.
+  intros r c d H. destruct r; unfold rdigit in H.
+  - destruct ((48 <=? c) && (c <=? 57)) eqn:Q1; [lia|].
+    destruct ((97 <=? c) && (c <=? 102)) eqn:Q2; [lia|].
+    destruct ((65 <=? c) && (c <=? 70)) eqn:Q3; [lia|discriminate].
+  - destruct ((c =? 48) || (c =? 49)) eqn:Q1; [lia|discriminate].
+  - destruct ((48 <=? c) && (c <=? 55)) eqn:Q1; [lia|discriminate].
+Qed.
+
+Lemma rdigit_facts : forall r c d, rdigit r c = Some d ->
+  c <> 95 /\ pu_digit c = Some d /\ d < radix_base r /\ big_digit c = d /\
+  (in_range 48 57 c || (is_hexr r && in_range 97 102 (lower c))) = true /\
+  c <> 112 /\ c <> 80 /\ c <> 46.
+Proof.
+  intros r c d H. pose proof (rdigit_lt r c d H) as Hlt.
+  assert (Hin : In c (map N.of_nat (seq 0 128))).
+  { apply in_map_iff. exists (N.to_nat c). split; [lia|]. apply in_seq. lia. }
+  pose proof (proj1 (forallb_forall _ _) rdigit_sweep c Hin) as Hs. cbv beta in Hs.
+  apply andb_prop in Hs. destruct Hs as [Hs H3]. apply andb_prop in Hs. destruct Hs as [H1 H2].
+  assert (Hc : rdigit_check r c = true) by (destruct r; assumption).
+  unfold rdigit_check in Hc. rewrite H in Hc.
+  repeat (apply andb_prop in Hc; let X := fresh "F" in destruct Hc as [Hc X]).
+  unfold opt_is in *. destruct (pu_digit c) as [x|]; [|discriminate].
+  repeat split; try lia. f_equal. lia.
+Qed.
+
+Lemma rdigit_us : forall r, rdigit r 95 = None.
+Proof. intros []; reflexivity. Qed.
+
+Lemma is_rdigit_some : forall r c, is_rdigit r c = true -> exists d, rdigit r c = Some d.
+Proof. intros r c H. unfold is_rdigit in H. destruct (rdigit r c) as [d|]; [exists d; reflexivity|discriminate]. Qed.
+
+Lemma radix_base_ge : forall r, 2 <= radix_base r.
+Proof. intros []; cbn; lia. Qed.
+
+(* the shape of a well-formed digit string *)
+Lemma rad_ok_inv : forall r c ds, rad_ok r (c :: ds) = true ->
+  (ds = [] /\ is_rdigit r c = true) \/
+  (exists c2 ds2, ds = c2 :: ds2 /\ rad_ok r ds = true /\
+     (is_rdigit r c = true \/ (c = 95 /\ is_rdigit r c2 = true))).
+Proof.
+  intros r c ds H. destruct ds as [|c2 ds2]; [left; split; [reflexivity|exact H]|].
+  right. exists c2, ds2. split; [reflexivity|].
+  change (rad_ok r (c :: c2 :: ds2)) with ((is_rdigit r c || ((c =? 95) && is_rdigit r c2)) && rad_ok r (c2 :: ds2)) in H.
+  apply andb_prop in H. destruct H as [H1 H2]. split; [exact H2|].
+  apply orb_prop in H1. destruct H1 as [H1|H1]; [left; exact H1|].
+  apply andb_prop in H1. destruct H1 as [H1 H3]. right. split; [lia|exact H3].
+Qed.
+
+(* the scanning state: after a digit (or the prefix), or after a '_' that a digit follows *)
+Definition st_ok (r : radix) (p : N) (ds : list N) : Prop :=
+  p = 1 \/ (p = 2 /\ exists c ds', ds = c :: ds' /\ is_rdigit r c = true).
+
+Lemma is_rdigit_us : forall r, is_rdigit r 95 = false.
+Proof. intros []; reflexivity. Qed.
+
+Lemma st_ok_us : forall r p ds, st_ok r p (95 :: ds) -> p = 1.
+Proof.
+  intros r p ds [H|(_ & c & ds' & E & Hd)]; [exact H|]. inversion E; subst. rewrite is_rdigit_us in Hd. discriminate.
+Qed.
+
+(* func underscoreOK *)
+Lemma uok_rad : forall r ds saw, rad_ok r ds = true -> st_ok r saw ds -> uok_loop (is_hexr r) ds saw = true.
+Proof.
+  intros r ds. induction ds as [|c ds IH]; intros saw Hok Hst; [discriminate|].
+  destruct (rad_ok_inv r c ds Hok) as [[-> Hd]|(c2 & ds2 & E & Hok' & Hc)].
+  - destruct (is_rdigit_some r c Hd) as (d & Ed). destruct (rdigit_facts r c d Ed) as (_ & _ & _ & _ & Ht & _).
+    cbn [uok_loop]. rewrite Ht. reflexivity.
+  - destruct Hc as [Hd|[-> Hd2]].
+    + destruct (is_rdigit_some r c Hd) as (d & Ed). destruct (rdigit_facts r c d Ed) as (_ & _ & _ & _ & Ht & _).
+      cbn [uok_loop]. rewrite Ht. apply IH; [exact Hok'|left; reflexivity].
+    + pose proof (st_ok_us r saw ds Hst) as ->.
+      cbn [uok_loop]. change (in_range 48 57 95) with false. change (in_range 97 102 (lower 95)) with false.
+      rewrite andb_false_r. cbn [orb]. change (95 =? 95) with true. change (1 =? 1) with true. cbv iota.
+      apply IH; [exact Hok'|]. right. split; [reflexivity|]. exists c2, ds2. split; [exact E|exact Hd2].
+Qed.
+
+(* the digit loop of nat.scan *)
+Lemma big_scan_rad : forall r ds prev seen acc, rad_ok r ds = true -> st_ok r prev ds ->
+  big_scan_loop (radix_base r) ds prev false seen acc = ([], 1, false, true, rad_value r ds acc).
+Proof.
+  intros r ds. induction ds as [|c ds IH]; intros prev seen acc Hok Hst; [discriminate|].
+  destruct (rad_ok_inv r c ds Hok) as [[-> Hd]|(c2 & ds2 & E & Hok' & Hc)].
+  - destruct (is_rdigit_some r c Hd) as (d & Ed). destruct (rdigit_facts r c d Ed) as (H95 & _ & Hlt & Hb & _).
+    cbn [big_scan_loop rad_value]. apply N.eqb_neq in H95. rewrite H95, Hb, Ed.
+    destruct (radix_base r <=? d) eqn:Q; [lia|]. reflexivity.
+  - destruct Hc as [Hd|[-> Hd2]].
+    + destruct (is_rdigit_some r c Hd) as (d & Ed). destruct (rdigit_facts r c d Ed) as (H95 & _ & Hlt & Hb & _).
+      cbn [big_scan_loop rad_value]. apply N.eqb_neq in H95. rewrite H95, Hb, Ed.
+      destruct (radix_base r <=? d) eqn:Q; [lia|]. apply IH; [exact Hok'|left; reflexivity].
+    + pose proof (st_ok_us r prev ds Hst) as ->.
+      cbn [big_scan_loop rad_value]. change (95 =? 95) with true. cbv iota. rewrite rdigit_us.
+      change (false || negb (1 =? 1)) with false.
+      apply IH; [exact Hok'|]. right. split; [reflexivity|]. exists c2, ds2. split; [exact E|exact Hd2].
+Qed.
+
+Lemma rad_value_ge : forall r ds n, n <= rad_value r ds n.
+Proof.
+  intros r ds. induction ds as [|c ds IH]; intros n; [cbn; lia|].
+  cbn [rad_value]. destruct (rdigit r c) as [d|]; [|apply IH].
+  pose proof (IH (n * radix_base r + d)). pose proof (radix_base_ge r). nia.
+Qed.
+
+Lemma rad_ok_chars : forall r ds, rad_ok r ds = true -> Forall (fun c => c = 95 \/ is_rdigit r c = true) ds.
+Proof.
+  intros r ds. induction ds as [|c ds IH]; intros H; [discriminate|].
+  destruct (rad_ok_inv r c ds H) as [[-> Hd]|(c2 & ds2 & E & Hok' & Hc)].
+  - constructor; [right; exact Hd|constructor].
+  - constructor; [|apply IH; exact Hok']. destruct Hc as [Hd|[-> _]]; [right; exact Hd|left; reflexivity].
+Qed.
+
+(* the digit loop of ParseUint with base 0: separators are skipped *)
+Lemma pu_loop_rad : forall r ds n0 us, Forall (fun c => c = 95 \/ is_rdigit r c = true) ds -> n0 <= max_u64 ->
+  exists us', pu_loop (radix_base r) true (max_u64 / radix_base r + 1) ds n0 us =
+              (if rad_value r ds n0 <=? max_u64 then POk (rad_value r ds n0) else PErr ERange, us').
+Proof.
+  intros r ds. induction ds as [|c ds IH]; intros n0 us Hs Hn.
+  - exists us. cbn. apply N.leb_le in Hn. rewrite Hn. reflexivity.
+  - inversion Hs as [|? ? Hc Hs']; subst.
+    destruct (N.eq_dec c 95) as [->|Hne].
+    + cbn [pu_loop rad_value]. change ((95 =? 95) && true) with true. cbv iota. rewrite rdigit_us.
+      apply IH; assumption.
+    + destruct Hc as [Hc|Hd]; [contradiction|].
+      destruct (is_rdigit_some r c Hd) as (d & Ed). destruct (rdigit_facts r c d Ed) as (_ & Hpu & Hlt & _).
+      cbn [pu_loop rad_value]. rewrite Ed. apply N.eqb_neq in Hne. rewrite Hne. cbn [andb].
+      unfold pu_digit in Hpu. rewrite Hpu.
+      pose proof (radix_base_ge r) as Hb.
+      destruct (radix_base r <=? d) eqn:Hbd; [lia|].
+      pose proof (rad_value_ge r ds (n0 * radix_base r + d)) as Hge.
+      destruct (max_u64 / radix_base r + 1 <=? n0) eqn:Hcut.
+      * apply N.leb_le in Hcut. exists us.
+        assert (max_u64 < n0 * radix_base r).
+        { pose proof (N.mul_succ_div_gt max_u64 (radix_base r) ltac:(lia)). nia. }
+        destruct (rad_value r ds (n0 * radix_base r + d) <=? max_u64) eqn:Q; [lia|reflexivity].
+      * destruct (max_u64 <? n0 * radix_base r + d) eqn:Hov.
+        -- exists us. destruct (rad_value r ds (n0 * radix_base r + d) <=? max_u64) eqn:Q; [lia|reflexivity].
+        -- apply IH; [exact Hs'|lia].
+Qed.
+
+Lemma radix_letter_lower : forall r up,
+  lower (radix_letter r up) = match r with RHex => 120 | RBin => 98 | ROct => 111 end.
+Proof. intros [] []; reflexivity. Qed.
+
+Lemma underscore_ok_rad : forall r up ds, rad_ok r ds = true ->
+  underscore_ok (48 :: radix_letter r up :: ds) = true.
+Proof.
+  intros r up ds H. unfold underscore_ok. change ((48 =? 45) || (48 =? 43)) with false. cbv iota.
+  rewrite radix_letter_lower.
+  assert (E : uok_loop (is_hexr r) ds 1 = true) by (apply uok_rad; [exact H|left; reflexivity]).
+  destruct r; cbn [N.eqb Pos.eqb orb]; exact E.
+Qed.
+
+Lemma parse_uint_rad : forall r up ds, rad_ok r ds = true ->
+  parse_uint (48 :: radix_letter r up :: ds) 0 = uint_result (rad_value r ds 0).
+Proof.
+  intros r up ds H. pose proof (underscore_ok_rad r up ds H) as Hu.
+  destruct (pu_loop_rad r ds 0 false (rad_ok_chars r ds H) ltac:(unfold max_u64; lia)) as (us' & Hp).
+  destruct ds as [|h ds']; [discriminate|].
+  unfold parse_uint. change (0 =? 0) with true. change (48 =? 48) with true. cbv iota beta.
+  rewrite radix_letter_lower.
+  destruct r; cbn [N.eqb Pos.eqb radix_base] in *; cbv iota beta; cbn [skipn]; rewrite Hp, Hu;
+    unfold uint_result; destruct (rad_value _ (h :: ds') 0 <=? max_u64); try reflexivity; rewrite andb_false_r; reflexivity.
+Qed.
+
+Lemma parse_int_rad : forall r up ds, rad_ok r ds = true ->
+  parse_int (48 :: radix_letter r up :: ds) 0 = int_result (rad_value r ds 0).
+Proof.
+  intros r up ds H. apply parse_int_of_uint; [discriminate|discriminate|apply parse_uint_rad; exact H].
+Qed.
+
+(* big.Int.SetString(s, 0) *)
+Lemma big_set_string0_rad : forall r up ds, rad_ok r ds = true ->
+  big_set_string0 (48 :: radix_letter r up :: ds) = Some (false, rad_value r ds 0).
+Proof.
+  intros r up ds H.
+  pose proof (big_scan_rad r ds 1 false 0 H (or_introl eq_refl)) as Hs.
+  unfold big_set_string0. change (48 =? 45) with false. change (48 =? 43) with false. cbv iota.
+  unfold big_nat_scan0. change (48 =? 48) with true. cbv iota.
+  destruct r, up; cbn [radix_letter N.eqb Pos.eqb orb radix_base] in *; cbv iota; rewrite Hs; reflexivity.
+Qed.
+
+(* no float marker in such a text *)
+Lemma rad_no_float_chars : forall r up ds, rad_ok r ds = true ->
+  contains_any (48 :: radix_letter r up :: ds) [112; 80] = false /\
+  contains_byte (48 :: radix_letter r up :: ds) 46 = false.
+Proof.
+  intros r up ds H.
+  set (P := fun c : N => negb ((c =? 112) || (c =? 80) || (c =? 46))).
+  assert (Hall : forallb P (48 :: radix_letter r up :: ds) = true).
+  { cbn [forallb]. assert (P 48 = true) by reflexivity. assert (P (radix_letter r up) = true) by (destruct r, up; reflexivity).
+    rewrite H0, H1. cbn [andb]. apply forallb_forall. intros c Hc.
+    pose proof (proj1 (Forall_forall _ _) (rad_ok_chars r ds H) c Hc) as [->|Hd]; [reflexivity|].
+    destruct (is_rdigit_some r c Hd) as (d & Ed). destruct (rdigit_facts r c d Ed) as (_ & _ & _ & _ & _ & A & B & C).
+    unfold P. apply N.eqb_neq in A, B, C. rewrite A, B, C. reflexivity. }
+  split; [apply (no_any P _ _ Hall); reflexivity|apply (no_byte P _ _ Hall); reflexivity].
+Qed.
+
+Lemma rad_value_cons : forall r c ds acc,
+  rad_value r (c :: ds) acc = rad_value r ds (match rdigit r c with Some d => acc * radix_base r + d | None => acc end).
+Proof. reflexivity. Qed.
+
+(* plain numerals are such digit strings *)
+Lemma rad_pure : forall r ds, ds <> [] -> Forall (fun c => rdigit r c = Some (dig c)) ds ->
+  rad_ok r ds = true /\ forall acc, rad_value r ds acc = bval (radix_base r) ds acc.
+Proof.
+  intros r ds. induction ds as [|c ds IH]; intros Hne Hs; [contradiction|].
+  inversion Hs as [|? ? Hc Hs']; subst.
+  assert (Hd : is_rdigit r c = true) by (unfold is_rdigit; rewrite Hc; reflexivity).
+  destruct ds as [|c2 ds2].
+  - split; [exact Hd|]. intros acc. cbn [rad_value bval fold_left]. rewrite Hc. reflexivity.
+  - destruct (IH ltac:(discriminate) Hs') as [Hok Hv]. split.
+    + change (rad_ok r (c :: c2 :: ds2)) with ((is_rdigit r c || ((c =? 95) && is_rdigit r c2)) && rad_ok r (c2 :: ds2)).
+      rewrite Hd, Hok. reflexivity.
+    + intros acc. rewrite rad_value_cons, Hc, Hv. reflexivity.
+Qed.
+
+Lemma hex_rad : forall n, rad_ok RHex (hex n) = true /\ rad_value RHex (hex n) 0 = n.
+Proof.
+  intros n. destruct (rad_pure RHex (hex n) (hex_nonempty n)) as [H1 H2].
+  { unfold hex. rewrite hex_aux_gen. apply gen_aux_digits; [lia| |constructor].
+    intros k Hk. apply hexdigit_dig. exact Hk. }
+  split; [exact H1|]. rewrite H2. apply hex_val_n.
+Qed.
+
+Lemma bin_rad : forall n, rad_ok RBin (bin n) = true /\ rad_value RBin (bin n) 0 = n.
+Proof.
+  intros n. destruct (rad_pure RBin (bin n) (bin_nonempty n)) as [H1 H2].
+  { destruct n as [|p]; [constructor; [reflexivity|constructor]|].
+    unfold bin. apply pos_bits_all; [reflexivity|reflexivity|constructor]. }
+  split; [exact H1|]. rewrite H2. apply bin_val.
+Qed.
+
+Lemma oct_aux_gen : forall f n acc, oct_aux f n acc = gen_aux 8 (fun k => 48 + k) f n acc.
+Proof. induction f as [|f IH]; intros; [reflexivity|]. cbn [oct_aux gen_aux]. rewrite IH. reflexivity. Qed.
+
+Lemma oct_digit : forall k, k < 8 -> dig (48 + k) = k /\ rdigit ROct (48 + k) = Some (dig (48 + k)).
+Proof.
+  intros k Hk. assert (Hc : k = 0 \/ k = 1 \/ k = 2 \/ k = 3 \/ k = 4 \/ k = 5 \/ k = 6 \/ k = 7) by lia.
+  destruct Hc as [->|[->|[->|[->|[->|[->|[->| ->]]]]]]]; split; reflexivity.
+Qed.
+
+Lemma oct_nonempty : forall n, oct n <> [].
+Proof.
+  intros n. unfold oct. rewrite oct_aux_gen. cbn [gen_aux].
+  destruct (n / 8 =? 0); [discriminate|]. apply gen_aux_nonempty. discriminate.
+Qed.
+
+Lemma oct_rad : forall n, rad_ok ROct (oct n) = true /\ rad_value ROct (oct n) 0 = n.
+Proof.
+  intros n. destruct (rad_pure ROct (oct n) (oct_nonempty n)) as [H1 H2].
+  { unfold oct. rewrite oct_aux_gen. apply gen_aux_digits; [lia| |constructor].
+    intros k Hk. apply oct_digit. exact Hk. }
+  split; [exact H1|]. rewrite H2. unfold oct. rewrite oct_aux_gen.
+  rewrite gen_aux_val; [reflexivity|lia| |apply log2_fuel]. intros k Hk. apply oct_digit. exact Hk.
 Qed.
 
 (* ========================================================================================== *)
@@ -595,13 +864,13 @@ Qed.
 
 Lemma cval_ind2 : forall P : cval -> Prop,
   (forall n, P (CNat n)) -> (forall n, P (CNeg n)) -> (forall n, P (CHex n)) -> (forall n, P (CBin n)) ->
-  (forall neg text, P (CFlt neg text)) -> (forall v, P (CStr v)) ->
+  (forall r up ds, P (CRad r up ds)) -> (forall neg text, P (CFlt neg text)) -> (forall v, P (CStr v)) ->
   (forall l, Forall P l -> P (CArr l)) -> (forall l, Forall P l -> P (CTup l)) ->
   forall t, P t.
 Proof.
-  intros P H1 H2 H3 H4 H5 H6 HA HT. fix IH 1. intros t.
-  destruct t as [n|n|n|n|neg text|v|l|l];
-    [apply H1|apply H2|apply H3|apply H4|apply H5|apply H6| | ].
+  intros P H1 H2 H3 H4 HR H5 H6 HA HT. fix IH 1. intros t.
+  destruct t as [n|n|n|n|r up ds|neg text|v|l|l];
+    [apply H1|apply H2|apply H3|apply H4|apply HR|apply H5|apply H6| | ].
   - apply HA. induction l as [|x l IHl]; constructor; [apply IH|exact IHl].
   - apply HT. induction l as [|x l IHl]; constructor; [apply IH|exact IHl].
 Qed.
@@ -653,35 +922,42 @@ Proof. intros. cbn [has_prefix]. destruct s; rewrite andb_true_r; reflexivity. Q
 
 Lemma lhex_no_p : forallb (fun c => negb (is_lhex c)) [112; 80] = true. Proof. reflexivity. Qed.
 
-Lemma parse_number_hex : forall n, pn ([48; 120] ++ hex n) = int_lval n.
-Proof.
-  intros n. unfold parse_number. cbn [app].
-  rewrite !has_prefix_cons2. cbn [N.eqb Pos.eqb orb andb negb].
-  assert (Hx : forallb (fun c => is_lhex c || (c =? 120)) (48 :: 120 :: hex n) = true).
-  { cbn [forallb]. change (is_lhex 48 || (48 =? 120)) with true. change (is_lhex 120 || (120 =? 120)) with true.
-    cbn [andb]. apply forallb_forall. intros x Hx.
-    rewrite (proj1 (forallb_forall _ _) (hex_chars n) x Hx). reflexivity. }
-  rewrite (no_any _ _ [112; 80] Hx eq_refl), (no_byte _ _ 46 Hx eq_refl). cbn [orb].
-  pose proof (parse_int_hex n) as Hi. pose proof (parse_uint_hex n) as Hu. cbn [app] in Hi, Hu. rewrite Hi, Hu.
-  unfold int_result, uint_result, int_lval.
-  destruct (n <? two63) eqn:Q1; [reflexivity|].
-  destruct (n <=? max_u64) eqn:Q2.
-  - destruct (n <? two64) eqn:Q3; [reflexivity|unfold two64, max_u64 in *; lia].
-  - destruct (n <? two64) eqn:Q3; [unfold two64, max_u64 in *; lia|].
-    unfold hex_to_float. cbn [skipn].
-    pose proof (hex_nonempty n) as Hne. pose proof (hex_hex_val n) as Hv.
-    destruct (hex n) as [|h hs]; [contradiction|]. rewrite Hv. reflexivity.
+(* every well-formed prefixed spelling: int64, then uint64, then big.Int -> float64 *)
+Lemma parse_number_rad : forall r up ds, rad_ok r ds = true ->
+  pn (48 :: radix_letter r up :: ds) = int_lval (rad_value r ds 0).
+Proof using.
+  clear parse_float_ok int_to_float_ok nearest_coherent.
+  intros r up ds H.
+  pose proof (parse_int_rad r up ds H) as Hi. pose proof (parse_uint_rad r up ds H) as Hu.
+  pose proof (big_set_string0_rad r up ds H) as Hb.
+  destruct (rad_no_float_chars r up ds H) as [Hp Hd].
+  unfold parse_number. rewrite !has_prefix_cons2.
+  set (n := rad_value r ds 0) in Hi, Hu, Hb |- *.
+  assert (E : (if n <? two63 then VInt n
+               else if n <=? max_u64 then VUInt n else VFloat (int_to_float n)) = int_lval n).
+  { unfold int_lval. destruct (n <? two63); [reflexivity|].
+    destruct (n <=? max_u64) eqn:Q2; destruct (n <? two64) eqn:Q3; try reflexivity;
+      unfold two64, max_u64 in Q2, Q3; lia. }
+  rewrite <- E. unfold int_result, uint_result in Hi, Hu.
+  destruct r, up; cbn [radix_letter N.eqb Pos.eqb orb andb negb] in Hi, Hu, Hb, Hp, Hd |- *; rewrite ?Hp, ?Hd;
+    cbn [orb andb negb];
+    rewrite Hi, Hu; unfold radix_to_float; rewrite Hb;
+    destruct (n <? two63); try reflexivity; destruct (n <=? max_u64); reflexivity.
 Qed.
 
-Lemma parse_number_bin : forall n, n < two64 -> pn ([48; 98] ++ bin n) = int_lval n.
-Proof.
-  intros n Hn. unfold parse_number. cbn [app].
-  rewrite !has_prefix_cons2. cbn [N.eqb Pos.eqb orb andb negb].
-  pose proof (parse_int_bin n) as Hi. pose proof (parse_uint_bin n) as Hu. cbn [app] in Hi, Hu. rewrite Hi, Hu.
-  unfold int_result, uint_result, int_lval.
-  destruct (n <? two63) eqn:Q1; [reflexivity|].
-  destruct (n <=? max_u64) eqn:Q2; [|unfold two64, max_u64 in *; lia].
-  destruct (n <? two64) eqn:Q3; [reflexivity|lia].
+Lemma parse_number_hex : forall n, pn ([48; 120] ++ hex n) = int_lval n.
+Proof using.
+  intros n. destruct (hex_rad n) as [H1 H2]. rewrite <- H2 at 2. exact (parse_number_rad RHex false (hex n) H1).
+Qed.
+
+Lemma parse_number_bin : forall n, pn ([48; 98] ++ bin n) = int_lval n.
+Proof using.
+  intros n. destruct (bin_rad n) as [H1 H2]. rewrite <- H2 at 2. exact (parse_number_rad RBin false (bin n) H1).
+Qed.
+
+Lemma parse_number_oct : forall n, pn ([48; 111] ++ oct n) = int_lval n.
+Proof using.
+  intros n. destruct (oct_rad n) as [H1 H2]. rewrite <- H2 at 2. exact (parse_number_rad ROct false (oct n) H1).
 Qed.
 
 Lemma parse_number_float : forall text, float_text parse_float text = true ->
@@ -711,6 +987,18 @@ Proof.
   - destruct (n <? two64) eqn:Q2; [reflexivity|].
     cbn [format_literal]. rewrite format_float_canon by apply int_to_float_ok. reflexivity.
 Qed.
+
+Lemma explain_int_lval : forall n,
+  explain_literal int_to_float (int_lval n) =
+  OLit (if n <? p64 then s_UInt64 ++ dec n else s_Float64 ++ canon_float (int_to_float n)).
+Proof.
+  intros n. pose proof (format_int_lval n) as Hf. unfold int_lval in *.
+  destruct (n <? two63); [cbn [explain_literal]; rewrite Hf; reflexivity|].
+  destruct (n <? two64); cbn [explain_literal]; rewrite Hf; reflexivity.
+Qed.
+
+Lemma int_lval_simple : forall n, match int_lval n with VArr _ | VTup _ => false | _ => true end = true.
+Proof. intros n. unfold int_lval. destruct (n <? two63); [reflexivity|]. destruct (n <? two64); reflexivity. Qed.
 
 (* the canonical text of -n *)
 Definition canon_neg (n : N) : list N :=
@@ -759,6 +1047,7 @@ Fixpoint ast (t : cval) : lexpr :=
   | CNeg n => ENeg (pn (dec n))
   | CHex n => ELit (pn ([48; 120] ++ hex n))
   | CBin n => ELit (pn ([48; 98] ++ bin n))
+  | CRad r up ds => ELit (pn ([48; radix_letter r up] ++ ds))
   | CFlt neg text => if neg then ENeg (pn text) else ELit (pn text)
   | CStr v => ELit (VStr v false)
   | CArr l => ELit (VArr (map ast l))
@@ -771,20 +1060,12 @@ Definition is_scalar (t : cval) : bool := match t with CArr _ | CTup _ => false 
 Lemma scalar_top : forall t, scalar_ok parse_float t = true ->
   explain_top parse_float int_to_float (ast t) = OLit (canon t).
 Proof.
-  intros t H. destruct t as [n|n|n|n|neg text|v|l|l]; cbn [scalar_ok] in H; try discriminate.
-  - cbn [ast explain_top LiteralSpec.canon]. rewrite parse_number_dec.
-    pose proof (format_int_lval n) as Hf. unfold int_lval in *.
-    destruct (n <? two63); [cbn [explain_literal]; rewrite Hf; reflexivity|].
-    destruct (n <? two64); cbn [explain_literal]; rewrite Hf; reflexivity.
+  intros t H. destruct t as [n|n|n|n|r up ds|neg text|v|l|l]; cbn [scalar_ok] in H; try discriminate.
+  - cbn [ast explain_top LiteralSpec.canon]. rewrite parse_number_dec. apply explain_int_lval.
   - cbn [ast explain_top LiteralSpec.canon]. rewrite parse_number_dec, explain_negated_int. reflexivity.
-  - cbn [ast explain_top LiteralSpec.canon]. rewrite parse_number_hex.
-    pose proof (format_int_lval n) as Hf. unfold int_lval in *.
-    destruct (n <? two63); [cbn [explain_literal]; rewrite Hf; reflexivity|].
-    destruct (n <? two64); cbn [explain_literal]; rewrite Hf; reflexivity.
-  - apply N.ltb_lt in H. cbn [ast explain_top LiteralSpec.canon]. rewrite parse_number_bin by exact H.
-    pose proof (format_int_lval n) as Hf. unfold int_lval in *.
-    destruct (n <? two63); [cbn [explain_literal]; rewrite Hf; reflexivity|].
-    destruct (n <? two64); cbn [explain_literal]; rewrite Hf; reflexivity.
+  - cbn [ast explain_top LiteralSpec.canon]. rewrite parse_number_hex. apply explain_int_lval.
+  - cbn [ast explain_top LiteralSpec.canon]. rewrite parse_number_bin. apply explain_int_lval.
+  - cbn [ast explain_top LiteralSpec.canon app]. rewrite parse_number_rad by exact H. apply explain_int_lval.
   - destruct (parse_number_float text H) as (f & Ep & En & Hok).
     cbn [ast LiteralSpec.canon]. unfold float_of_text. rewrite Ep.
     destruct neg; cbn [explain_top explain_literal explain_negated]; rewrite En.
@@ -804,7 +1085,7 @@ Lemma scalar_elem : forall t, scalar_ok parse_float t = true ->
   elem_simple (ast t) = true /\ format_array_elem int_to_float (ast t) = canon t /\
   format_tuple_elem int_to_float (ast t) = canon t.
 Proof.
-  intros t H. destruct t as [n|n|n|n|neg text|v|l|l]; cbn [scalar_ok] in H; try discriminate.
+  intros t H. destruct t as [n|n|n|n|r up ds|neg text|v|l|l]; cbn [scalar_ok] in H; try discriminate.
   - cbn [ast format_array_elem format_tuple_elem LiteralSpec.canon elem_simple]. rewrite parse_number_dec.
     pose proof (format_int_lval n) as Hf. split; [|split; exact Hf].
     unfold int_lval. destruct (n <? two63); [reflexivity|]. destruct (n <? two64); reflexivity.
@@ -814,10 +1095,14 @@ Proof.
   - cbn [ast format_array_elem format_tuple_elem LiteralSpec.canon elem_simple]. rewrite parse_number_hex.
     pose proof (format_int_lval n) as Hf. split; [|split; exact Hf].
     unfold int_lval. destruct (n <? two63); [reflexivity|]. destruct (n <? two64); reflexivity.
-  - apply N.ltb_lt in H. cbn [ast format_array_elem format_tuple_elem LiteralSpec.canon elem_simple].
-    rewrite parse_number_bin by exact H.
+  - cbn [ast format_array_elem format_tuple_elem LiteralSpec.canon elem_simple].
+    rewrite parse_number_bin.
     pose proof (format_int_lval n) as Hf. split; [|split; exact Hf].
     unfold int_lval. destruct (n <? two63); [reflexivity|]. destruct (n <? two64); reflexivity.
+  - cbn [ast format_array_elem format_tuple_elem LiteralSpec.canon elem_simple app].
+    rewrite parse_number_rad by exact H.
+    pose proof (format_int_lval (rad_value r ds 0)) as Hf. split; [|split; exact Hf].
+    apply int_lval_simple.
   - destruct (parse_number_float text H) as (f & Ep & En & Hok).
     cbn [ast LiteralSpec.canon]. unfold float_of_text. rewrite Ep.
     destruct neg; cbn [format_array_elem format_tuple_elem elem_simple]; rewrite En.
@@ -834,7 +1119,8 @@ Proof. intros t H. destruct t; cbn in *; try reflexivity; discriminate. Qed.
 Lemma simple_facts : forall e, elem_simple e = true ->
   is_arr e = false /\ is_tup e = false /\ is_empty_arr e = false /\ empty_rec_e e = false /\
   tuples_rec_e e = false /\ tuple_elem_complex e = false /\ only_prim_e e = true /\
-  (match e with ELit (VTup _) => true | ELit _ => false | ENeg v => negb (is_numeric v) end) = false.
+  (match e with ELit (VTup _) => true | ELit _ => false | ENeg v => negb (is_numeric v) end) = false /\
+  nonlit_e e = false /\ nonlit_rec_e e = false.
 Proof.
   intros [v|v] H; cbn [elem_simple] in H.
   - destruct v; try discriminate; cbn; repeat split; reflexivity.
@@ -851,9 +1137,12 @@ Record arr_facts (x : cval) : Prop := {
   af_tuples_rec : tuples_rec_e (ast x) = false;
   af_should : (match ast x with ELit (VTup _) => true | ELit _ => false | ENeg v => negb (is_numeric v) end) = false;
   af_need : (match ast x with
-             | ELit (VArr inner) => Nat.eqb (length inner) 0 || existsb is_tup inner || existsb is_empty_arr inner
+             | ELit (VArr inner) =>
+                 existsb nonlit_e inner || Nat.eqb (length inner) 0 || existsb is_tup inner || existsb is_empty_arr inner
              | _ => false
              end) = false;
+  af_nonlit : nonlit_e (ast x) = false;
+  af_nonlit_rec : nonlit_rec_e (ast x) = false;
   af_format : format_array_elem int_to_float (ast x) = canon x
 }.
 
@@ -871,8 +1160,9 @@ Qed.
 
 Lemma arr_elem_facts : forall x, aelem x = true -> arr_facts x.
 Proof.
-  induction x as [n|n|n|n|neg text|v|l IH|l IH] using cval_ind2; intros H; unfold aelem in H; cbn [is_carr] in H;
-    try (destruct (scalar_elem _ H) as (Hs & Hfa & _); destruct (simple_facts _ Hs) as (F1 & F2 & F3 & F4 & F5 & F6 & F7 & F8);
+  induction x as [n|n|n|n|r up ds|neg text|v|l IH|l IH] using cval_ind2; intros H; unfold aelem in H; cbn [is_carr] in H;
+    try (destruct (scalar_elem _ H) as (Hs & Hfa & _);
+         destruct (simple_facts _ Hs) as (F1 & F2 & F3 & F4 & F5 & F6 & F7 & F8 & F9 & F10);
          constructor; try assumption;
          match goal with |- (match ?e with _ => _ end) = false => destruct e as [[]|]; try reflexivity; discriminate end).
   - (* CArr l *)
@@ -890,9 +1180,12 @@ Proof.
     + cbn [empty_rec_e empty_rec_v]. rewrite Hlen'. cbn [orb]. apply Hin. intros y Hy. apply (af_empty_rec y (Hel y Hy)).
     + cbn [tuples_rec_e tuples_rec_v]. apply Hin. intros y Hy. apply (af_tuples_rec y (Hel y Hy)).
     + reflexivity.
-    + rewrite Hlen'. cbn [orb].
+    + rewrite Hlen'.
+      rewrite (Hin nonlit_e) by (intros y Hy; apply (af_nonlit y (Hel y Hy))). cbn [orb].
       rewrite (Hin is_tup) by (intros y Hy; apply (af_tup y (Hel y Hy))).
       rewrite (Hin is_empty_arr) by (intros y Hy; apply (af_empty y (Hel y Hy))). reflexivity.
+    + reflexivity.
+    + cbn [nonlit_rec_e nonlit_rec_v]. apply Hin. intros y Hy. apply (af_nonlit_rec y (Hel y Hy)).
     + cbn [format_array_elem format_literal LiteralSpec.canon].
       rewrite map_canon by (intros y Hy; apply (af_format y (Hel y Hy))).
       rewrite join_sjoin. reflexivity.
@@ -913,8 +1206,9 @@ Proof.
     rewrite map_length. apply negb_true_iff in Hlen. rewrite Hlen. cbn [orb].
     rewrite (Hin _ (fun y Hy => af_should y (Hel y Hy))). cbn [orb].
     rewrite (Hin _ (fun y Hy => af_need y (Hel y Hy))). rewrite andb_false_r. cbn [orb].
-    unfold empty_arrays_rec, tuples_rec.
-    rewrite (Hin _ (fun y Hy => af_empty_rec y (Hel y Hy))), (Hin _ (fun y Hy => af_tuples_rec y (Hel y Hy))).
+    unfold empty_arrays_rec, tuples_rec, nonlit_rec.
+    rewrite (Hin _ (fun y Hy => af_empty_rec y (Hel y Hy))), (Hin _ (fun y Hy => af_tuples_rec y (Hel y Hy))),
+            (Hin _ (fun y Hy => af_nonlit_rec y (Hel y Hy))).
     rewrite !andb_false_r. reflexivity. }
   rewrite Hf. f_equal. exact (af_format _ F).
 Qed.
@@ -933,8 +1227,8 @@ Proof. intros A f l H. apply forallb_forall. exact H. Qed.
 
 Lemma tup_elem_facts : forall x, telem x = true -> tup_facts x.
 Proof.
-  induction x as [n|n|n|n|neg text|v|l IH|l IH] using cval_ind2; intros H; unfold telem in H; cbn [is_ctup] in H;
-    try (destruct (scalar_elem _ H) as (Hs & _ & Hft); destruct (simple_facts _ Hs) as (F1 & F2 & F3 & F4 & F5 & F6 & F7 & F8);
+  induction x as [n|n|n|n|r up ds|neg text|v|l IH|l IH] using cval_ind2; intros H; unfold telem in H; cbn [is_ctup] in H;
+    try (destruct (scalar_elem _ H) as (Hs & _ & Hft); destruct (simple_facts _ Hs) as (F1 & F2 & F3 & F4 & F5 & F6 & F7 & F8 & _);
          constructor; assumption).
   - cbn [tup_ok] in H. apply andb_prop in H. destruct H as [Hlen Hall].
     assert (Hel : forall y, In y l -> tup_facts y).
@@ -969,7 +1263,7 @@ Qed.
 Theorem explain_ast_canon : forall t, wfb t = true ->
   explain_top parse_float int_to_float (ast t) = OLit (canon t).
 Proof.
-  intros t H. destruct t as [n|n|n|n|neg text|v|l|l]; unfold LiteralSpec.wfb in H;
+  intros t H. destruct t as [n|n|n|n|r up ds|neg text|v|l|l]; unfold LiteralSpec.wfb in H;
     try (apply scalar_top; exact H).
   - apply array_top. exact H.
   - apply tuple_top. exact H.
@@ -987,7 +1281,7 @@ Fixpoint shaped (t : cval) : bool :=
 
 Lemma wfb_shaped : forall t, wfb t = true -> shaped t = true.
 Proof.
-  induction t as [n|n|n|n|neg text|v|l IH|l IH] using cval_ind2; intros H; try reflexivity.
+  induction t as [n|n|n|n|r up ds|neg text|v|l IH|l IH] using cval_ind2; intros H; try reflexivity.
   - unfold LiteralSpec.wfb in H. cbn [arr_ok] in H. apply andb_prop in H. destruct H as [Hlen Hall].
     cbn [shaped]. rewrite Hlen. cbn [andb]. apply forallb_true. intros y Hy.
     rewrite Forall_forall in IH. pose proof (proj1 (forallb_forall _ _) Hall y Hy) as Hy'.
@@ -1014,7 +1308,7 @@ Definition starts_lit (k : N) : Prop :=
 
 Lemma toks_head : forall t, exists hd tl, toks t = hd :: tl /\ starts_lit (fst hd).
 Proof.
-  intros t. unfold starts_lit. destruct t as [n|n|n|n|neg text|v|l|l]; cbn [toks app]; try (eexists; eexists; split; [reflexivity|cbn; tauto]).
+  intros t. unfold starts_lit. destruct t as [n|n|n|n|r up ds|neg text|v|l|l]; cbn [toks app]; try (eexists; eexists; split; [reflexivity|cbn; tauto]).
   destruct neg; cbn [app]; eexists; eexists; split; try reflexivity; cbn; tauto.
 Qed.
 
@@ -1113,10 +1407,11 @@ Qed.
 
 Lemma parse_toks : forall t, parses t.
 Proof.
-  induction t as [n|n|n|n|neg text|v|l IH|l IH] using cval_ind2; intros Hs fuel rest Hfo Hf;
+  induction t as [n|n|n|n|r up ds|neg text|v|l IH|l IH] using cval_ind2; intros Hs fuel rest Hfo Hf;
     (destruct fuel as [|f]; [cbn in Hf; lia|]).
   - cbn [toks app ast]. rewrite parse_lit_number. unfold with_follow. rewrite Hfo. reflexivity.
   - cbn [toks app ast]. rewrite parse_lit_minus_number, (follow_tok_peek rest Hfo). unfold with_follow. rewrite Hfo. reflexivity.
+  - cbn [toks ast]. cbn [app]. rewrite parse_lit_number. unfold with_follow. rewrite Hfo. reflexivity.
   - cbn [toks ast]. cbn [app]. rewrite parse_lit_number. unfold with_follow. rewrite Hfo. reflexivity.
   - cbn [toks ast]. cbn [app]. rewrite parse_lit_number. unfold with_follow. rewrite Hfo. reflexivity.
   - cbn [toks ast]. destruct neg; cbn [app].
@@ -1165,7 +1460,7 @@ Proof.
     inversion H as [|? ? Hx Hr]; subst.
     change (sjoin [tk_comma] (map toks (x :: y :: ys))) with (toks x ++ [tk_comma] ++ sjoin [tk_comma] (map toks (y :: ys))).
     apply Forall_app. split; [exact Hx|]. apply Forall_app. split; [constructor; [discriminate|constructor]|apply IH; exact Hr]. }
-  induction t as [n|n|n|n|neg text|v|l IH|l IH] using cval_ind2; cbn [toks];
+  induction t as [n|n|n|n|r up ds|neg text|v|l IH|l IH] using cval_ind2; cbn [toks];
     try (repeat constructor; discriminate).
   - destruct neg; repeat constructor; discriminate.
   - apply Forall_app. split; [repeat constructor; discriminate|]. apply Forall_app. split; [apply J; exact IH|repeat constructor; discriminate].
@@ -1283,45 +1578,40 @@ Proof.
   destruct (n <=? two63) eqn:Q3; [lia|reflexivity].
 Qed.
 
-(* hex and binary literals by value *)
-Lemma parse_number_prefixed_small : forall v n, n < two64 ->
-  (exists c1 s, v = 48 :: c1 :: s /\ (c1 = 120 \/ c1 = 98) /\
-                (c1 = 120 -> contains_any v [112; 80] = false /\ contains_byte v 46 = false)) ->
-  parse_int v 0 = int_result n -> parse_uint v 0 = uint_result n ->
-  explain_literal int_to_float (pn v) = OLit (t_UInt64 ++ dec n).
+(* hex, binary and octal literals by value, for EVERY n and every well-formed spelling: UInt64_n below 2^64, from
+   there on Float64_ of the float64 nearest to n (big.Int.SetString, big.Float.SetInt, Float64) *)
+Definition by_value_text (n : N) : list N :=
+  if n <? 18446744073709551616 then t_UInt64 ++ dec n else t_Float64 ++ format_float (int_to_float n).
+
+Lemma explain_int_lval_text : forall n,
+  explain_literal int_to_float (int_lval int_to_float n) = OLit (by_value_text n).
 Proof.
-  intros v n Hn (c1 & s & -> & Hc & Hx) Hi Hu. unfold parse_number.
-  rewrite !has_prefix_cons2.
-  destruct Hc as [-> | ->]; cbn [N.eqb Pos.eqb orb andb negb].
-  - destruct (Hx eq_refl) as [Hp Hd]. rewrite Hp, Hd. cbn [orb].
-    rewrite Hi, Hu. unfold int_result, uint_result.
-    destruct (n <? two63); [reflexivity|].
-    destruct (n <=? max_u64) eqn:Q; [reflexivity|unfold two64, max_u64 in *; lia].
-  - rewrite Hi, Hu. unfold int_result, uint_result.
-    destruct (n <? two63); [reflexivity|].
-    destruct (n <=? max_u64) eqn:Q; [reflexivity|unfold two64, max_u64 in *; lia].
+  intros n. unfold int_lval, by_value_text. change 18446744073709551616 with two64.
+  destruct (n <? two63) eqn:Q1.
+  - destruct (n <? two64) eqn:Q2; [reflexivity|unfold two63, two64 in *; lia].
+  - destruct (n <? two64); reflexivity.
 Qed.
 
-Theorem hex_literal : forall n, n < two64 ->
-  lot [(T_NUMBER, [48; 120] ++ hex n)] = LOk (OLit (t_UInt64 ++ dec n)).
+Theorem radix_literal : forall r up ds, rad_ok r ds = true ->
+  lot [(T_NUMBER, [48; radix_letter r up] ++ ds)] =
+  LOk (OLit (let n := rad_value r ds 0 in
+             if n <? 18446744073709551616 then t_UInt64 ++ dec n else t_Float64 ++ format_float (int_to_float n))).
 Proof.
-  intros n Hn. rewrite lot_number. f_equal.
-  apply (parse_number_prefixed_small _ n Hn); [|apply parse_int_hex|apply parse_uint_hex].
-  exists 120, (hex n). split; [reflexivity|]. split; [left; reflexivity|]. intros _.
-  assert (Hx : forallb (fun c => is_lhex c || (c =? 120)) (48 :: 120 :: hex n) = true).
-  { cbn [forallb]. change (is_lhex 48 || (48 =? 120)) with true. change (is_lhex 120 || (120 =? 120)) with true.
-    cbn [andb]. apply forallb_forall. intros x Hx.
-    rewrite (proj1 (forallb_forall _ _) (hex_chars n) x Hx). reflexivity. }
-  split; [apply (no_any _ _ [112; 80] Hx eq_refl)|apply (no_byte _ _ 46 Hx eq_refl)].
+  intros r up ds H. rewrite lot_number. cbn [app].
+  rewrite (parse_number_rad parse_float int_to_float r up ds H), explain_int_lval_text. reflexivity.
 Qed.
 
-Theorem bin_literal : forall n, n < two64 ->
-  lot [(T_NUMBER, [48; 98] ++ bin n)] = LOk (OLit (t_UInt64 ++ dec n)).
-Proof.
-  intros n Hn. rewrite lot_number. f_equal.
-  apply (parse_number_prefixed_small _ n Hn); [|apply parse_int_bin|apply parse_uint_bin].
-  exists 98, (bin n). split; [reflexivity|]. split; [right; reflexivity|]. intros H; discriminate.
-Qed.
+Theorem hex_literal : forall n, lot [(T_NUMBER, [48; 120] ++ hex n)] =
+  LOk (OLit (if n <? 18446744073709551616 then t_UInt64 ++ dec n else t_Float64 ++ format_float (int_to_float n))).
+Proof. intros n. rewrite lot_number, parse_number_hex, explain_int_lval_text. reflexivity. Qed.
+
+Theorem bin_literal : forall n, lot [(T_NUMBER, [48; 98] ++ bin n)] =
+  LOk (OLit (if n <? 18446744073709551616 then t_UInt64 ++ dec n else t_Float64 ++ format_float (int_to_float n))).
+Proof. intros n. rewrite lot_number, parse_number_bin, explain_int_lval_text. reflexivity. Qed.
+
+Theorem oct_literal : forall n, lot [(T_NUMBER, [48; 111] ++ oct n)] =
+  LOk (OLit (if n <? 18446744073709551616 then t_UInt64 ++ dec n else t_Float64 ++ format_float (int_to_float n))).
+Proof. intros n. rewrite lot_number, parse_number_oct, explain_int_lval_text. reflexivity. Qed.
 
 (* strings: the canonical rendering, for every byte string *)
 Theorem string_literal : forall v, lot [(T_STRING, v)] = LOk (OLit (canon_string v)).
@@ -1352,13 +1642,6 @@ Lemma nested_neg_example :
   /\ literal_of_tokens w_parse_float w_int_to_float (toks (CTup [CNat 1; CNeg w_n]))
     = LOk (OLit (s_Tuple ++ s_UInt64 ++ [49; 44; 32] ++ w_neg_text ++ [41])).
 Proof. vm_compute. repeat split; reflexivity. Qed.
-
-(* a binary literal >= 2^64 is printed as a STRING literal (strconv.ParseFloat rejects the text; hex literals of
-   that size go to the float branch through parseHexToFloat): 0b1 followed by 64 zeros *)
-Lemma bin_big_refuted :
-  literal_of_tokens w_parse_float w_int_to_float (toks (CBin 18446744073709551616))
-  = LOk (OLit (format_string ([48; 98] ++ bin 18446744073709551616))).
-Proof. vm_compute. reflexivity. Qed.
 
 (* a decimal literal that overflows float64 (1e999: strconv returns a range error) is printed as a STRING literal *)
 Lemma float_range_refuted :
